@@ -34,5 +34,9 @@ def run(name: str, pid, jobs: int) -> int:
     if name == "determinism":
         from ladsim import determinism
         return determinism.main(pid, jobs)
+    if name == "sensitivity":
+        # every stored seeded change against the check of its property, each repair reversed
+        rc = subprocess.call([sys.executable, str(VERIF / "tools" / "mutants.py"), "seeded", "--budget", "45"])
+        return 2 if rc else 0
     print("unknown selftest", name)
     return 2
